@@ -931,16 +931,19 @@ def binding(ctx):
                     if 'Some' in se and 'None' in se and rs.dominates(se['Some'], x1['block']) and rs.dominates(se['None'], x2['block']):
                         ordered = True
                 ok = ordered and stage1_ok(hit) and stage2_ok(v2, None)
-    if (e is None or not is_call(e, 'Option::<T>::or_else')) and len(rs.loops()) == 2:
+    part_loops = {loop_built(rs, l_)['loop'][0] for l_ in range(rs.nargs + 1, len(rs.raw['locals'])) if loop_built(rs, l_) is not None}
+    search_loops = [L_ for L_ in rs.loops() if L_[0] not in part_loops]
+    if (e is None or not is_call(e, 'Option::<T>::or_else')) and not ok and 1 <= len(search_loops) <= 2:
         # the same search written as two `for` loops: first hit of stage 1, else first hit of stage 2, else None.  A hit is
         # delivered by `return Some(..)` or by `found = Some(..); break` with `found` returned after the loop; the restriction to
         # registered types / to modules may sit in the loop source (partition, filter) or in the body (`continue`).
         from r_panic import cycle_without
-        Ls = sorted(rs.loops(), key=lambda L_: L_[0])
-        L1, L2 = Ls
-        if not rs.dominates(L1[0], L2[0]) or L2[0] in L1[1]:
+        Ls = sorted(search_loops, key=lambda L_: L_[0])
+        mixed = len(Ls) == 1          # stage 1 as an iterator search with an early return, stage 2 as a loop
+        L1, L2 = (Ls[0], Ls[0]) if mixed else Ls
+        if not mixed and (not rs.dominates(L1[0], L2[0]) or L2[0] in L1[1]):
             L1, L2 = L2, L1
-        staged = rs.dominates(L1[0], L2[0]) and L2[0] not in L1[1] and L1[0] not in L2[1]
+        staged = mixed or (rs.dominates(L1[0], L2[0]) and L2[0] not in L1[1] and L1[0] not in L2[1])
         # the values the function can return, with the block that produces each
         finals = []
         for x in rs.exits():
@@ -1078,6 +1081,26 @@ def binding(ctx):
                     any(isinstance(y, tuple) and y[0] == 'arg' and y[2] == 'name' for y in walk(cand[0]))
                 okr2 = bool(cand) and r2[2] and strip(r2[2][0][1])[0] == 'agg' and strip(r2[2][0][1])[1].endswith('Type::Raw') and strip(strip(r2[2][0][1])[2][0][1]) == strip(cand[0])
                 ok2 = bool(root_first and plain and mods and ck and okr2 and every2 and not S2['skips'])
+            if mixed:
+                # stage 1 is the iterator search in front of the loop: `if let Some(p) = <find> { return Some(Raw(p)) }`
+                ok1 = False
+                for x1, v1 in some_vals:
+                    if x1['block'] in S2['body']:
+                        continue
+                    inner = strip(v1[2][0][1]) if v1[2] else ('x',)
+                    if not (inner[0] == 'agg' and inner[1].endswith('Type::Raw') and inner[2]):
+                        continue
+                    pth = strip(xp(inner[2][0][1]))
+                    while pth[0] == 'call' and pth[2] and re.search(r'(::clone|::to_owned|::deref)$', pth[1]):
+                        pth = strip(pth[2][0])
+                    if not (pth[0] == 'payload' and pth[2] == 'Some'):
+                        continue
+                    hit = strip(pth[1])
+                    for s_ in rs.switches():
+                        if s_['cond'][0] == 'discr' and strip(xp(s_['cond'][1])) == hit:
+                            se = dict((lab, tgt) for lab, tgt in s_['edges'])
+                            if 'Some' in se and 'None' in se and rs.dominates(se['Some'], x1['block']) and rs.dominates(se['None'], S2['header']):
+                                ok1 = stage1_ok(hit)
             det += ' ;; stage1 %s stage2 %s' % (ok1, ok2)
         ok = ok1 and ok2
     ctx.ob(['C11', 'C19', 'C10', 'C09', 'C05'], 'R-EXPR', 'C11-D3|candidate-order', ok,
